@@ -261,6 +261,55 @@ pub mod signal_node {
     }
 }
 
+pub mod signal_node_finite {
+    use super::*;
+    use sig_reg::Signal as RegSignal;
+
+    /// yields `len` frames [n+1, -(n+1)] and reports exhaustion afterwards, like an iterator-backed signal
+    pub struct Finite {
+        pub n: u32,
+        pub len: u32,
+    }
+    impl RegSignal for Finite {
+        type Frame = [f32; 2];
+        fn next(&mut self) -> [f32; 2] {
+            let v = if self.n < self.len { (self.n + 1) as f32 } else { 0.0 };
+            self.n += 1;
+            [v, -v]
+        }
+        fn is_exhausted(&self) -> bool {
+            self.n >= self.len
+        }
+    }
+
+    /// a signal that ends (mid-block, at a block boundary, or before the first block) keeps being
+    /// rendered: one buffer length of frames per call - silence once the signal has run out - and the
+    /// signal keeps advancing
+    #[kani::proof]
+    #[kani::unwind(66)]
+    pub fn finite_signal_keeps_rendering() {
+        let len: u32 = kani::any();
+        kani::assume(len <= 70);
+        let mut sig = Finite { n: 0, len };
+        let mut out = [any_buffer(), any_buffer()];
+        let t = any_t();
+        for call in 0..2u32 {
+            {
+                let node: &mut dyn RegSignal<Frame = [f32; 2]> = &mut sig;
+                node.process(&[], &mut out);
+            }
+            let idx = call * LEN as u32 + t as u32;
+            let want = if idx < len { (idx + 1) as f32 } else { 0.0 };
+            assert!(out[0][t] == want && out[1][t] == -want, "frame 64*call + t of the signal (silence past its end)");
+            assert!(sig.n == (call + 1) * LEN as u32, "one buffer length of frames per call, exhausted or not");
+        }
+        kani::cover!(len == 0, "exhausted before the first block");
+        kani::cover!(len == 64, "ends exactly at the block boundary");
+        kani::cover!(len > 0 && len < 64, "ends mid-block");
+        kani::cover!(true, "end");
+    }
+}
+
 pub mod wrappers {
     use super::*;
 
